@@ -1098,3 +1098,52 @@ def check_insn(seg_insn, addr, chunk):
     if ops != want_ops:
         return f"'{name}' operands decode as {ops} (words {[oct(w) for w in words]}), expected {want_ops}"
     return None
+
+
+# ------------------------------------------------------------------------------------------------------------------
+# JSON (de)serialisation, so that replay files carry the abstract program and not only its text
+
+def _tup(x):
+    return tuple(_tup(i) for i in x) if isinstance(x, (list, tuple)) else x
+
+
+def st_to_json(st):
+    d = {"k": st.k, "labels": [list(l) for l in st.labels]}
+    for key, val in st.__dict__.items():
+        if key in ("k", "labels"):
+            continue
+        if key == "body":
+            d[key] = [st_to_json(b) for b in val]
+        else:
+            d[key] = val
+    return d
+
+
+def st_from_json(d):
+    st = St(d["k"])
+    st.labels = [tuple(l) for l in d.get("labels", [])]
+    for key, val in d.items():
+        if key in ("k", "labels"):
+            continue
+        if key == "body":
+            st.body = [st_from_json(b) for b in val]
+        elif key in ("ops", "exprs", "chunks"):
+            setattr(st, key, [_tup(v) for v in val])
+        elif key in ("expr", "count"):
+            setattr(st, key, _tup(val))
+        else:
+            setattr(st, key, val)
+    return st
+
+
+def to_json(prog):
+    return {"files": [{"name": f.name, "stmts": [st_to_json(s) for s in f.stmts]} for f in prog.files],
+            "aux": {p: {"name": f.name, "stmts": [st_to_json(s) for s in f.stmts]} for p, f in prog.aux.items()},
+            "blobs": {p: b.hex() for p, b in prog.blobs.items()}, "charset": prog.charset}
+
+
+def from_json(obj):
+    def sf(d):
+        return SrcFile(d["name"], [st_from_json(s) for s in d["stmts"]])
+    return Program([sf(f) for f in obj["files"]], {p: sf(f) for p, f in obj.get("aux", {}).items()},
+                   {p: bytes.fromhex(b) for p, b in obj.get("blobs", {}).items()}, obj.get("charset", "bk"))
